@@ -58,13 +58,13 @@ check_queue(int c)
 {
 	nni_lmq *q    = &ctxs[c]->lmq;
 	int      prev = 0;
-	CHECK(q->lmq_len <= q->lmq_cap, "receive buffer never holds more than its depth");
+	SCHECK(q->lmq_len <= q->lmq_cap, "receive buffer never holds more than its depth");
 	for (size_t k = 0; k < q->lmq_len; k++) {
 		nni_msg *m = q->lmq_msgs[(q->lmq_get + k) & q->lmq_mask];
-		CHECK(m->tag > prev, "queued messages are distinct and in arrival order");
-		CHECK(m->tag > last_tag_delivered[c], "nothing already delivered is queued again");
+		SCHECK(m->tag > prev, "queued messages are distinct and in arrival order");
+		SCHECK(m->tag > last_tag_delivered[c], "nothing already delivered is queued again");
 		prev = m->tag;
-		CHECK(nni_msg_len(m) == 2 && ((u8 *) nni_msg_body(m))[0] == wbody[m->tag - 1][0] &&
+		SCHECK(nni_msg_len(m) == 2 && ((u8 *) nni_msg_body(m))[0] == wbody[m->tag - 1][0] &&
 		        ((u8 *) nni_msg_body(m))[1] == wbody[m->tag - 1][1],
 		    "queued message bytes are unaltered");
 	}
@@ -77,13 +77,13 @@ sweep(void)
 			noted[i]   = 1;
 			nni_msg *m = nni_aio_get_msg(&uaio_at(i));
 			int      c = uctx[i];
-			CHECK(m != NULL && m->tag >= 1 && m->tag <= nw, "a received message is one that was published");
-			CHECK(m->tag > last_tag_delivered[c], "a context receives each message at most once and in publication order");
+			SCHECK(m != NULL && m->tag >= 1 && m->tag <= nw, "a received message is one that was published");
+			SCHECK(m->tag > last_tag_delivered[c], "a context receives each message at most once and in publication order");
 			last_tag_delivered[c] = m->tag;
-			CHECK(nni_msg_len(m) == 2 && ((u8 *) nni_msg_body(m))[0] == wbody[m->tag - 1][0] &&
+			SCHECK(nni_msg_len(m) == 2 && ((u8 *) nni_msg_body(m))[0] == wbody[m->tag - 1][0] &&
 			        ((u8 *) nni_msg_body(m))[1] == wbody[m->tag - 1][1],
 			    "received message bytes are exactly the published bytes");
-			CHECK(!nni_msg_shared(m), "received message is not shared with another context");
+			SCHECK(!nni_msg_shared(m), "received message is not shared with another context");
 			nni_msg_free(m);
 			nni_aio_set_msg(&uaio_at(i), NULL);
 		}
@@ -97,7 +97,7 @@ monitor(void)
 		check_queue(c);
 	for (int i = 0; i < MAXU; i++)
 		if (uaio_used[i])
-			CHECK(env_aio_completed(&uaio_at(i)) <= 1, "receive completes at most once");
+			SCHECK(env_aio_completed(&uaio_at(i)) <= 1, "receive completes at most once");
 	if (!sock_closed)
 		CHECK(nni_atomic_get_bool(&sock.readable.p_raised) == !nni_lmq_empty(&sock.master.lmq),
 		    "C15: receive poll state mirrors whether the socket's buffer holds a message");
@@ -120,7 +120,28 @@ ev_sub(int c, int t)
 	KNEED(!sock_closed);
 	if (kstop)
 		return;
+#ifdef VH_FAULTPASS
+	int ntop0 = 0, ntop1 = 0;
+	sub0_topic *tp;
+	NNI_LIST_FOREACH (&ctxs[c]->topics, tp)
+		ntop0++;
+#endif
+	int alloc_live0 = env_alloc_live;
 	nng_err rv = sub0_ctx_subscribe(ctxs[c], tbytes[t], tlen[t]);
+#ifdef VH_FAULTPASS
+	SCHECK(rv == 0 || rv == NNG_ENOMEM, "C20: subscribe succeeds or reports NNG_ENOMEM");
+	SCHECK((rv == NNG_ENOMEM) == (VH_FAULT_FIRED != 0), "C20: subscribe reports NNG_ENOMEM exactly when one of its allocations failed");
+	if (rv == NNG_ENOMEM) {
+		NNI_LIST_FOREACH (&ctxs[c]->topics, tp)
+			ntop1++;
+		SCHECK(ntop1 == ntop0, "C20: a subscribe that failed leaves the subscription list as it was");
+		SCHECK(env_alloc_live == alloc_live0, "C20: a subscribe that failed leaks nothing");
+		WITNESS("subscribe failed cleanly");
+		KFAULT_ABSORBED();
+		monitor();
+		return;
+	}
+#endif
 	CHECK(rv == 0, "subscribe succeeds");
 	subd[c][t] = 1;
 	/* a topic equal to one already present is the same subscription */
@@ -283,7 +304,23 @@ ev_recvbuf(int c, int n)
 	int tags[8];
 	for (int k = 0; k < 8; k++)
 		tags[k] = k < len0 ? ctxs[c]->lmq.lmq_msgs[(ctxs[c]->lmq.lmq_get + k) & ctxs[c]->lmq.lmq_mask]->tag : 0;
-	CHECK(sub0_ctx_set_recv_buf_len(ctxs[c], &v, sizeof(v), NNI_TYPE_INT32) == 0, "set RECVBUF");
+	nng_err brv = sub0_ctx_set_recv_buf_len(ctxs[c], &v, sizeof(v), NNI_TYPE_INT32);
+#ifdef VH_FAULTPASS
+	SCHECK(brv == 0 || brv == NNG_ENOMEM, "C20: set RECVBUF succeeds or reports NNG_ENOMEM");
+	SCHECK((brv == NNG_ENOMEM) == (VH_FAULT_FIRED != 0), "C20: set RECVBUF reports NNG_ENOMEM exactly when its allocation failed");
+	if (brv == NNG_ENOMEM) {
+		SCHECK((int) nni_lmq_len(&ctxs[c]->lmq) == len0, "C20: a resize that failed discards nothing");
+		for (int k = 0; k < 8; k++)
+			if (k < len0)
+				SCHECK(ctxs[c]->lmq.lmq_msgs[(ctxs[c]->lmq.lmq_get + k) & ctxs[c]->lmq.lmq_mask]->tag == tags[k],
+				    "C20: a resize that failed keeps the queued messages in order");
+		WITNESS("resize failed cleanly");
+		KFAULT_ABSORBED();
+		monitor();
+		return;
+	}
+#endif
+	CHECK(brv == 0, "set RECVBUF");
 	int keep = len0 < n ? len0 : n;
 	CHECK((int) nni_lmq_len(&ctxs[c]->lmq) == keep, "C18: resize discards only as many whole messages as no longer fit");
 	for (int k = 0; k < 8; k++)
@@ -317,13 +354,13 @@ ev_close(void)
 	sweep();
 	for (int i = 0; i < MAXU; i++)
 		if (uaio_used[i])
-			CHECK(KDONE(i), "C10: close completes every pending receive");
+			SCHECK(KDONE(i), "C10: close completes every pending receive");
 #ifndef ONECTX
 	sub0_ctx_fini(&xctx);
 #endif
 	sub0_sock_fini(&sock);
-	CHECK(env_msg_live == 0, "C03: after close and fini every message has been released exactly once");
-	CHECK(env_alloc_live == 0, "C03: after close and fini all memory is returned with matching sizes");
+	SCHECK(env_msg_live == 0, "C03: after close and fini every message has been released exactly once");
+	SCHECK(env_alloc_live == 0, "C03: after close and fini all memory is returned with matching sizes");
 	WITNESS("closed");
 }
 #define A(p) if (!kstop) ev_attach(p);
